@@ -217,6 +217,12 @@ pub(crate) fn hash_bytes_compact(input: &[u8]) -> Result<[u8; 32], &'static str>
     Ok(qp_poseidon_core::hash_to_bytes(&felts))
 }
 
+/// Verification hook: expose the crate-private compact hash to the /verif harness.
+#[cfg(feature = "verif-hooks")]
+pub fn verif_hash_bytes_compact(input: &[u8]) -> Result<[u8; 32], &'static str> {
+    hash_bytes_compact(input)
+}
+
 // ============================================================================
 // Digest serialization (4 felts <-> 32 bytes, 8 bytes/felt)
 // ============================================================================
